@@ -177,6 +177,7 @@ theorem Quiet.execAll_data (hL : L.OK) {done : Option Root} {next g free : Nat} 
     | fdatasync => exact ih _ free (q.sync hL) hos
     | fsync => exact ih _ free (q.sync hL) hos
     | falloc a b => exact ih _ D q hos
+    | failed => exact ih _ D q hos
 
 /-- verdict and intact records on every crash image of a quiet disk; `fut` are records that will
 only be appended later -/
